@@ -11,6 +11,8 @@ use zip::ZipArchive;
 
 /// underlying reader that splits reads: at most `max` bytes per read (0 = unlimited), one short read
 /// at cumulative byte `at`, or a cyclic list of limits
+/// I/O operations issued on all Chunked readers of this process (a driver reads the delta around one call)
+pub static TOTAL_OPS: std::sync::atomic::AtomicU64 = std::sync::atomic::AtomicU64::new(0);
 pub struct Chunked<'a> {
     pub cur: Cursor<&'a [u8]>,
     pub max: usize,
@@ -46,6 +48,7 @@ impl<'a> Read for Chunked<'a> {
     fn read(&mut self, buf: &mut [u8]) -> std::io::Result<usize> {
         let k = self.ops;
         self.ops += 1;
+        TOTAL_OPS.fetch_add(1, std::sync::atomic::Ordering::Relaxed);
         if self.fault_at == Some(k) {
             self.faulted = Some((k, "read"));
             return Err(std::io::Error::new(std::io::ErrorKind::Other, "injected fault"));
@@ -77,6 +80,7 @@ impl<'a> Seek for Chunked<'a> {
     fn seek(&mut self, p: SeekFrom) -> std::io::Result<u64> {
         let k = self.ops;
         self.ops += 1;
+        TOTAL_OPS.fetch_add(1, std::sync::atomic::Ordering::Relaxed);
         if self.fault_at == Some(k) {
             self.faulted = Some((k, "seek"));
             return Err(std::io::Error::new(std::io::ErrorKind::Other, "injected fault"));
